@@ -94,6 +94,7 @@ fn do_inprocess<P: Prop>(args: &[String]) -> i32 {
         get("--shard").parse().unwrap_or(0),
         get("--nshards").parse().unwrap_or(1),
         get("--cases").parse().unwrap_or(1),
+        get("--budget-s").parse().ok(),
     )
 }
 
